@@ -391,7 +391,9 @@ Proof.
   - split; [discriminate|intros [n H]; discriminate].
 Qed.
 
-(* the description is unusable with this roster *)
+(* the description is unusable with this roster: the roster id differs, there is no root
+   element, or some node names a server for which the roster search finds no member or a
+   member without public key *)
 Definition malformed (m : tmarshal) (ro : roster) : bool :=
   negb (r_id ro =? tm_rid m) ||
   match tm_children m with
@@ -558,13 +560,26 @@ Definition ex_tree : stree nat :=
 Example roundtrip_example :
   NoDup (map s_id (r_list ex_ro)) /\
   (forall x, In x (flat (t_root ex_tree)) -> nth_error (r_list ex_ro) (n_ridx x) = Some (n_srv x)) /\
+  (forall x, In x (flat (t_root ex_tree)) -> s_nokey (n_srv x) = false) /\
   aggs_computed nat Nat.add (t_root ex_tree) /\
   make_tree Nat.add false false (to_marshal ex_tree) (Some ex_ro) = Ok ex_tree.
 Proof.
   split; [repeat constructor; cbn; intuition discriminate|].
-  split; [|split; reflexivity].
-  intros x [<-|[<-|[]]]; reflexivity.
+  split; [intros x [<-|[<-|[]]]; reflexivity|].
+  split; [intros x [<-|[<-|[]]]; reflexivity|].
+  split; reflexivity.
 Qed.
+
+(* a member without public key: a description that places a node on it is refused (also by
+   the code as it is), one that does not use it is rebuilt *)
+Definition sC_nokey : server nat := mkSrv 3 0 [] true.
+Definition nokey_ro : roster nat := mkRo 7 [sA; sB; sC_nokey].
+
+Theorem keyless_member_refused :
+  malformed nat (TM 0 9 0 7 [TM 100 0 1 0 [TM 101 0 3 0 []]]) nokey_ro = true /\
+  make_tree Nat.add false false (TM 0 9 0 7 [TM 100 0 1 0 [TM 101 0 3 0 []]]) (Some nokey_ro) = Err /\
+  exists t, make_tree Nat.add false false (TM 0 9 0 7 [TM 100 0 1 0 [TM 101 0 2 0 []]]) (Some nokey_ro) = Ok t.
+Proof. split; [reflexivity|]. split; [reflexivity|]. eexists. reflexivity. Qed.
 
 (* roster ids repeat: every node sits on the member recorded in it, yet the node on
    the SECOND member with that id comes back on the first one (other index, other key,
